@@ -147,13 +147,35 @@ DOCUMENTED = (
 )
 
 
+def mixed_bracket_use(text):
+    """An axis name used both inside and outside of brackets (own scan; False when brackets are unbalanced)."""
+    depth, marked, unmarked, i = 0, set(), set(), 0
+    while i < len(text):
+        ch = text[i]
+        if ch == "[":
+            depth += 1
+        elif ch == "]":
+            depth -= 1
+            if depth < 0:
+                return False
+        elif ch.isalpha() or ch == "_":
+            j = i
+            while j < len(text) and (text[j].isalnum() or text[j] == "_"):
+                j += 1
+            (marked if depth > 0 else unmarked).add(text[i:j])
+            i = j
+            continue
+        i += 1
+    return depth == 0 and bool(marked & unmarked)
+
+
 def entry_ok(family, text):
     """C03 L1 + C12 H4b: the pre-solve stage of an operation family either reaches the solver or raises a
     documented class; a SyntaxError must quote the caller's own string."""
     fn, tensors = ENTRY[family]
     try:
         fn(text, *tensors)
-        return True
+        return not mixed_bracket_use(text)
     except einx.errors.SyntaxError as e:
         return quotes_caller(str(e), text)
     except DOCUMENTED:
@@ -165,7 +187,7 @@ def diagnose_entry(family, text):
     fn, tensors = ENTRY[family]
     try:
         fn(text, *tensors)
-        return {"outcome": "ok"}
+        return {"outcome": "ok", "mixed_bracket_use": mixed_bracket_use(text)}
     except einx.errors.SyntaxError as e:
         msg = str(e)
         quoted = msg.split('Expression: "', 1)[1].split('"', 1)[0] if 'Expression: "' in msg else None
@@ -174,3 +196,61 @@ def diagnose_entry(family, text):
         return {"outcome": type(e).__name__}
     except Exception as e:  # noqa: BLE001
         return {"outcome": type(e).__name__, "internal": True}
+
+
+# ---------------------------------------------------------------------------------------------------
+# spacing on valid descriptions: documentation examples and structural variety
+
+CORPUS = [
+    "a b c -> a (b c)", "a (b c) -> a b c", "a b -> b a", "[c d] a, b -> a [e] b", "a [b], [b] c -> a c",
+    "a b, b c -> a b c", "a b, -> a b", "a b [c] -> a b", "[a] b [c] -> b", "a 1 c -> a c", "a b -> a b 3 3",
+    "a c, b c -> (a + b) c", "(a + b) c -> a c, b c", "c, h w c -> (1 + (h w)) c", "a (b [c]) -> a b",
+    "(h [dh]) (w [dw]) c -> h w c", "s... [c] -> s...", "a..., b... -> a... b...", "b [s]... c -> b c",
+    "(s ds)... c -> (s...) ds... c", "(s [ds])...", "..., ... -> ...", "a [b -> c]", "b p [i,->]",
+    "b [h w] c, b p [2] -> b p c", "[h], p [1] -> p", "p [h], p, p -> p [h]", "b [h w] c, b p [2], b p c",
+    "a [b c]", "a [b] -> a [1]", "a b [c] -> a b [c]", "a b c, b c", "a, a", "a ([b]) c", "((a b) c) d -> a b c d",
+    "a (b (c d)) -> (a b) (c d)", "(a b) c -> c (a b)", "[a b] c -> c", "a [b] [c] -> a",
+    "a (b + c) d -> a b d, a c d",
+]
+
+
+def redundant_gaps(desc):
+    """Positions where inserting ONE space cannot change the token sequence: next to an existing space, after an
+    opening or before a closing delimiter, and around '->', ',' and '+'. Never next to an ellipsis
+    ('a ...' and 'a...' are different expressions) and never between two name/number characters."""
+    out = []
+    n = len(desc)
+    for p in range(n + 1):
+        left = desc[p - 1] if p > 0 else ""
+        right = desc[p] if p < n else ""
+        if desc[max(0, p - 3) : p] == "..." or desc[p : p + 3] == "...":
+            continue
+        if desc[max(0, p - 1) : p + 1] == "->" or (left == "-" and right == ">"):
+            continue  # inside the arrow
+        ok = False
+        if left == " " or right == " " or p == 0 or p == n:
+            ok = True
+        if left in "([" and left != "":
+            ok = True
+        if right in ")]" and right != "":
+            ok = True
+        if left in ",+>" and left != "":
+            ok = True
+        if right in ",+-" and right != "":
+            ok = True
+        if ok:
+            out.append(p)
+    return out
+
+
+def corpus_spacing(d, g1, g2):
+    desc = CORPUS[d]
+    gaps = redundant_gaps(desc)
+    if not gaps:
+        return True
+    p1, p2 = sorted([gaps[g1 % len(gaps)], gaps[g2 % len(gaps)]])
+    variant = desc[:p1] + " " + desc[p1:p2] + " " + desc[p2:]
+    a, b = outcome(desc), outcome(variant)
+    if a[0] != b[0]:
+        return False
+    return a[0] == "syntax-error" or same_tree(a[1], b[1])
